@@ -12,6 +12,8 @@ package oneway
 // is not started: direct sends, SendAndClear and process() are driven by the harness.
 
 import (
+	"time"
+
 	"github.com/whatap/golib/lang/pack"
 	wnet "github.com/whatap/golib/net"
 	whash "github.com/whatap/golib/util/hash"
@@ -325,6 +327,30 @@ func ZZ_C06_QueueDrain() {
 	}
 	zzvf.Observe("accepted", accepted)
 	zzvf.Reach("queue-drain")
+}
+
+// A healthy connection stays usable across idle periods longer than the write timeout
+// (60 s): the write deadline is renewed for every write. Connection opened by the
+// constructor's Connect or by the first send; idle 0 / 61 s / 10 min between sends.
+//vf: paths=2000
+func ZZ_C06_IdleLongerThanTimeout() {
+	znet.Reset()
+	c := zz6Client(false, 0)
+	if zzvf.Choose(2) == 0 {
+		c.Connect()
+	}
+	var want []byte
+	for i := 0; i < 3; i++ {
+		f, err := zz6Send(c, false, 0)
+		zzvf.Assert(err == nil, "idle/send-on-healthy-connection-succeeds")
+		want = append(want, f...)
+		znet.Advance([]time.Duration{0, 61 * time.Second, 10 * time.Minute}[zzvf.Choose(3)])
+	}
+	zzvf.Assert(len(znet.Links) == 1, "idle/no-needless-reconnect")
+	if len(znet.Links) == 1 {
+		zzvf.Assert(zz6Same(znet.Links[0].Rcvd, want), "idle/all-frames-delivered-in-order")
+	}
+	zzvf.Reach("idle")
 }
 
 // A frame larger than the client's 2 MiB write buffer between two small ones, drained from
